@@ -643,6 +643,12 @@ Definition ref_ddict_obs (n tsz : N) : prog :=
     Use D_table ;;
     Return true).
 
+(* ZSTDMT_resize with the grow decisions computed as the C code computes them from the state it finds:
+   cap = factory->threadCapacity, jobsCap = jobIDMask+1, bufTot / seqTot = totalBuffers of the two buffer pools,
+   cctxTot = totalCCtx (values of tables / pools that are NULL are irrelevant: the NULL test comes first) *)
+Definition mt_resize_state (cap jobsCap bufTot cctxTot seqTot w : N) : prog :=
+  mt_resize cap w (jobsCap <? w + 2) (bufTot <? buf_pool_max w) (cctxTot <? w) (seqTot <? seq_pool_max w).
+
 (* ------------------------------------------------------------------ API-level operations
    (shared by the all-history theorems and by the correspondence runs) *)
 Inductive op : Type :=
@@ -660,7 +666,8 @@ Inductive op : Type :=
 | ODStream (resize : bool) (sz : N) | ODStreamAny (sz : N)
 | ORefDDict (count tsz : N) | ORefDDictAny (tsz : N)
 | ODDictCreate (k : N) (byRef : bool) (sz : N) | ODDictFree (k : N)
-| OCompressObs (n wsz cdsz : N) | ODStreamObs (n sz : N) | ORefDDictObs (n tsz : N).
+| OCompressObs (n wsz cdsz : N) | ODStreamObs (n sz : N) | ORefDDictObs (n tsz : N)
+| OMtResize (cap jobsCap bufTot cctxTot seqTot w : N).
 
 Definition op_prog (o : op) : prog :=
   match o with
@@ -691,6 +698,7 @@ Definition op_prog (o : op) : prog :=
   | OCompressObs n wsz cdsz => compress_obs n wsz cdsz
   | ODStreamObs n sz => dstream_obs n sz
   | ORefDDictObs n tsz => ref_ddict_obs n tsz
+  | OMtResize cap jobsCap bufTot cctxTot seqTot w => mt_resize_state cap jobsCap bufTot cctxTot seqTot w
   end.
 
 (* one API call: failure bookkeeping restarts, the call never "returns" out of the sequence *)
@@ -706,6 +714,9 @@ Fixpoint ops_prog (ops : list op) : prog :=
 Definition p0 (l : list N) : N := nth 0 l 0.
 Definition p1 (l : list N) : N := nth 1 l 0.
 Definition p2 (l : list N) : N := nth 2 l 0.
+Definition p3 (l : list N) : N := nth 3 l 0.
+Definition p4 (l : list N) : N := nth 4 l 0.
+Definition p5 (l : list N) : N := nth 5 l 0.
 Definition nz (n : N) : bool := negb (n =? 0).
 Definition op_of_code (code : N) (ps : list N) : op :=
   match code with
@@ -731,6 +742,7 @@ Definition op_of_code (code : N) (ps : list N) : op :=
   | 17 => OCompressObs (p0 ps) (p1 ps) (p2 ps)
   | 27 => ODStreamObs (p0 ps) (p1 ps)
   | 28 => ORefDDictObs (p0 ps) (p1 ps)
+  | 6 => OMtResize (p0 ps) (p1 ps) (p2 ps) (p3 ps) (p4 ps) (p5 ps)
   | _ => OReset
   end.
 
